@@ -255,6 +255,22 @@ def check(chk, repo, tier):
                    + (" - not one of the documented whole-stack operations"
                       if u.form != "bad" else ""),
                    EF, knode.lineno, witness=WITNESS.get(key, key))
+        # an interpreter-owned list pushed without a copy keeps changing under
+        # later elements (⅛ appends to the global array): an entry below the
+        # top would change although nobody consumed it
+        from .c10 import bare_owned  # noqa: PLC0415
+        for n in ast.walk(tree):
+            if isinstance(n, ast.Call) and isinstance(n.func, ast.Attribute) \
+                    and n.func.attr == "append" and dotted(
+                    n.func.value) == "stack" and n.args:
+                for bare in bare_owned(n.args[0]):
+                    ok_all = False
+                    chk.ob("C09.no-live-list-on-stack",
+                           f"{cons}:stack.append({bare})", False,
+                           f"pushes the interpreter-owned list `{bare}` "
+                           "itself: later elements that update it change a "
+                           "stack entry they never consumed", EF,
+                           knode.lineno, witness="1⅛ 2⅛ ¾ 7 ⅛")
         if ok_all:
             chk.ob("C09.stack-use", cons, True)
         lo, hi = path_pops(tree.body)
